@@ -214,8 +214,12 @@ int fiber_io_unlock_thread() {
 
 static inline int should_block(int fd) {
   assert(fd >= 0);
+  // block the fiber only if the descriptor is one we can wait on AND the user
+  // has not put it into non-blocking mode (O_NONBLOCK / FIONBIO clear
+  // IO_FLAG_BLOCKING only)
   if (!thread_locked && fd_info && fd < max_fd &&
-      fd_info[fd].flags_ & (IO_FLAG_BLOCKING | IO_FLAG_WAITABLE)) {
+      (fd_info[fd].flags_ & (IO_FLAG_BLOCKING | IO_FLAG_WAITABLE)) ==
+          (IO_FLAG_BLOCKING | IO_FLAG_WAITABLE)) {
     return 1;
   }
   return 0;
